@@ -9,10 +9,13 @@ Reference specification (stated in `Lemmas/ContainerDict.lean`): `OMap` = first-
 keys + partial function; `put` on a present key changes only the value, on an absent key appends the key;
 `remove` forgets it.  `absMap` abstracts a container to it and loses nothing (`reference_map_faithful`).
 
-`…_full : Prop` = a sentence of the property the current code violates (refuted in `Findings/C18.lean`);
-the `…_partial` theorem next to it is the strongest version that holds, with the excluded inputs as an
-explicit hypothesis.
+The model mirrors /repo after the fix commits 7c684d5 (structural container equality), 68fefe3 (dict
+equality skips the framing tags), 9e4749c (`_check_tag` in add_group / set_group, DuplicatedTagError on a
+plain tag) and 8584485 (lower bound in get_group_by_index); with them six formerly partial statements are
+full theorems.  One sentence still fails (`get_after_set_any_spelling_full`, refuted in
+`Findings/C18.lean`): non-canonical decimal spellings of a tag are separate keys.
 -/
+import AsyncFix.Lemmas.ContainerBeq
 import AsyncFix.Lemmas.ContainerEqInj
 import AsyncFix.Lemmas.ContainerEqDict
 import AsyncFix.Lemmas.ContainerInv
@@ -135,10 +138,10 @@ theorem set_dup_refused (c : Cont) (t o : PyObj) (hi : intLike t.pyStr = true) (
   simp [Model.Container.set, hi, hk]
 
 /-- `set_group` on an existing tag (plain or group) raises DuplicatedTagError -/
-theorem set_group_dup_refused (c : Cont) (t : PyObj) (gs : List DItem) (hk : contains c t = true) :
-    setGroup c t gs = .error .duplicated := by
+theorem set_group_dup_refused (c : Cont) (t : PyObj) (gs : List DItem) (hi : intLike t.pyStr = true)
+    (hk : contains c t = true) : setGroup c t gs = .error .duplicated := by
   simp only [contains] at hk
-  simp [setGroup, hk]
+  simp [setGroup, hi, hk]
 
 /-- whatever an operation raises, the container is exactly as before (all mutators) -/
 theorem set_dup_atomic (c : Cont) (op : Op) (k : Kind) (h : (step c op).2 = some k) : (step c op).1 = c :=
@@ -192,33 +195,41 @@ example : [[49], [51]].Sublist (keys (run [([49], .str [97]), ([50], .str [98]),
 
 /-! ## 5. non-integer tags are refused -/
 
-theorem nonint_tag_refused (c : Cont) (t : PyObj) (v : PyVal) (r : Bool) (h : intLike t.pyStr = false) :
+theorem nonint_tag_refused_set (c : Cont) (t : PyObj) (v : PyVal) (r : Bool) (h : intLike t.pyStr = false) :
     step c (.set t v r) = (c, some .fixMessageError) := by
   simp [step, Op.apply, Model.Container.set, h]
 
-/-- for arbitrary histories: a plain value (string or class object) is never stored under a tag that
-`int()` rejects -/
-theorem plain_tags_intlike_invariant (c : Cont) (ops : List Op) (h : PlainTagsIntLike c) :
-    PlainTagsIntLike (run c ops) :=
-  run_plainTags c ops h
+/-- EVERY mutator (set / `__setitem__`, add_group, set_group) refuses a tag that `int()` rejects with
+FIXMessageError and leaves the container unchanged -/
+theorem nonint_tag_refused (c : Cont) (op : Op) (k : Str) (hk : op.key = some k) (hi : intLike k = false)
+    (hdel : ∀ t, op ≠ .del t) : step c op = (c, some .fixMessageError) := by
+  cases op with
+  | set t v r =>
+    simp only [Op.key, Option.some.injEq] at hk; subst hk
+    exact nonint_tag_refused_set c t v r hi
+  | del t => exact absurd rfl (hdel t)
+  | addGroup t g i =>
+    simp only [Op.key, Option.some.injEq] at hk; subst hk
+    simp [step, Op.apply, addGroup, hi]
+  | setGroup t gs =>
+    simp only [Op.key, Option.some.injEq] at hk; subst hk
+    simp [step, Op.apply, setGroup, hi]
+  | pickle => simp [Op.key] at hk
 
-example : PlainTagsIntLike (run [] [.set (.str [120]) (.obj (.str [97])) false, .set (.int 1) (.cls .repeating) false]) :=
-  plain_tags_intlike_invariant [] _ (by intro p hp; simp at hp)
+/-- … and so does the constructor, for plain and for list values -/
+theorem nonint_tag_refused_ctor (t : PyObj) (v : DVal) (rest : List DEntry) (acc : Cont)
+    (hi : intLike t.pyStr = false) : buildDict (.mk t v :: rest) acc = .error .fixMessageError := by
+  cases v with
+  | plain pv => simp [buildDict, Model.Container.set, hi]
+  | list items => simp [buildDict, hi]
 
-/-- Sentence of the property that fails: EVERY mutator refuses a non-integer tag.  `add_group` and
-`set_group` (and a list value in the constructor dict) never check the tag. -/
-def nonint_tag_refused_full : Prop :=
-  ∀ (c : Cont) (op : Op) (k : Str), op.key = some k → intLike k = false → (∀ t, op ≠ .del t) →
-    (step c op).2 = some .fixMessageError
+/-- for arbitrary histories: nothing is ever stored under a tag that `int()` rejects -/
+theorem tags_intlike_invariant (c : Cont) (ops : List Op) (h : TagsIntLike c) : TagsIntLike (run c ops) :=
+  run_tagsIntLike c ops h
 
-/-- proved part: `set` / `__setitem__` / plain constructor entries -/
-theorem nonint_tag_refused_partial (c : Cont) (op : Op) (k : Str) (hk : op.key = some k) (hi : intLike k = false)
-    (hset : ∃ t v r, op = .set t v r) : (step c op).2 = some .fixMessageError := by
-  obtain ⟨t, v, r, e⟩ := hset
-  subst e
-  simp only [Op.key, Option.some.injEq] at hk
-  subst hk
-  rw [nonint_tag_refused c t v r hi]
+example : TagsIntLike (run [] [.set (.str [120]) (.obj (.str [97])) false, .addGroup (.str [120]) (.dict []) (-1),
+    .set (.int 1) (.cls .repeating) false]) :=
+  tags_intlike_invariant [] _ (by intro p hp; simp at hp)
 
 /-! ## 6. group accessors -/
 
@@ -230,7 +241,7 @@ theorem add_group_inserts (c c' : Cont) (t t' : PyObj) (g : DItem) (i : Int) (h 
       (getGroupList c t = .ok old ∨ (contains c t = false ∧ old = [])) ∧
       getGroupList c' t' = .ok (old.take (addPos old.length i) ++ gc :: old.drop (addPos old.length i)) ∧
       addPos old.length i ≤ old.length := by
-  obtain ⟨old, gc, hg, hold, e⟩ := addGroup_ok c c' t g i h
+  obtain ⟨old, gc, _, hg, hold, e⟩ := addGroup_ok c c' t g i h
   refine ⟨old, gc, hg, ?_, ?_, addPos_le _ _⟩
   · rcases hold with hl | ⟨hl, he⟩
     · exact Or.inl (by simp [getGroupList, hl])
@@ -276,27 +287,23 @@ theorem add_group_then_index (items : List Cont) (g : Cont) (i : Int) :
 /-- `set_group` stores the items in list order and `get_group_list` returns them so -/
 theorem set_group_then_list (c c' : Cont) (t t' : PyObj) (gs : List DItem) (h : setGroup c t gs = .ok c')
     (ht : t'.pyStr = t.pyStr) : ∃ items, buildItems gs = .ok items ∧ getGroupList c' t' = .ok items := by
-  obtain ⟨items, hb, _, e⟩ := setGroup_ok c c' t gs h
+  obtain ⟨items, _, hb, _, e⟩ := setGroup_ok c c' t gs h
   exact ⟨items, hb, by rw [e, getGroupList_dictSet _ _ _ _ ht]⟩
 
-/-- `get_group_by_index`: Python indexing for `-len ≤ i < len`, TagNotFoundError above -/
+/-- `get_group_by_index`: Python indexing for `-len ≤ i < len`, the documented TagNotFoundError for every
+index out of range (above and below), never an IndexError -/
 theorem get_group_by_index_spec (c : Cont) (t : PyObj) (items : List Cont) (h : getGroupList c t = .ok items) :
     (∀ (i : Nat) (hi : i < items.length), getGroupByIndex c t i = .ok items[i]) ∧
     (∀ (j : Nat) (h0 : 0 < j) (hj : j ≤ items.length),
         getGroupByIndex c t (-(j : Int)) = .ok (items[items.length - j]'(by omega))) ∧
-    (∀ i : Int, (items.length : Int) ≤ i → getGroupByIndex c t i = .error .tagNotFound) :=
-  ⟨byIndex_nonneg c t items h, byIndex_negative c t items h, byIndex_high c t items h⟩
+    (∀ i : Int, (i < -(items.length : Int) ∨ (items.length : Int) ≤ i) →
+        getGroupByIndex c t i = .error .tagNotFound) :=
+  ⟨byIndex_nonneg c t items h, byIndex_negative c t items h,
+   fun i hi => hi.elim (byIndex_low c t items h i) (byIndex_high c t items h i)⟩
 
-/-- Sentence of the property that fails: every out-of-range index is reported by the documented
-TagNotFoundError.  Below `-len` the code lets Python's IndexError escape. -/
-def get_group_by_index_errors_full : Prop :=
-  ∀ (c : Cont) (t : PyObj) (items : List Cont) (i : Int), getGroupList c t = .ok items →
-    (i < -(items.length : Int) ∨ (items.length : Int) ≤ i) → getGroupByIndex c t i = .error .tagNotFound
-
-theorem get_group_by_index_errors_partial (c : Cont) (t : PyObj) (items : List Cont) (i : Int)
-    (h : getGroupList c t = .ok items) (hi : (items.length : Int) ≤ i) :
-    getGroupByIndex c t i = .error .tagNotFound :=
-  byIndex_high c t items h i hi
+theorem get_group_by_index_no_indexerror (c : Cont) (t : PyObj) (i : Int) :
+    getGroupByIndex c t i ≠ .error .indexError :=
+  byIndex_no_indexError c t i
 
 /-- `get_group_by_tag` returns the FIRST item that holds the value under the inner tag -/
 theorem get_group_by_tag_first (c : Cont) (t gt gv : PyObj) (g : Cont) (h : getGroupByTag c t gt gv = .ok g) :
@@ -330,27 +337,39 @@ theorem accessor_error_kinds (c : Cont) (t : PyObj) :
         getGroupList c t = .ok items) :=
   ⟨accessors_missing c t, fun s => accessors_plain c t s, fun items => accessors_group c t items⟩
 
-/-- Sentence of the property that fails: `add_group` reports misuse by the documented (library) errors.
-On a tag that holds a plain value (str or class object) it raises AttributeError. -/
-def add_group_errors_full : Prop :=
-  ∀ (c : Cont) (t : PyObj) (g : DItem) (i : Int) (k : Kind), addGroup c t g i = .error k →
-    k = .fixMessageError ∨ k = .duplicated
-
-/-- proved part: on a missing tag or a group tag the only errors are those of converting the item
-(FIXMessageError for a non-dict / non-container, or what `FIXContainer(dict)` raises) -/
-theorem add_group_errors_partial (c : Cont) (t : PyObj) (g : DItem) (i : Int) (k : Kind)
-    (h : addGroup c t g i = .error k)
-    (hplain : lookup t.pyStr c = none ∨ ∃ gs, lookup t.pyStr c = some (.group gs)) :
-    g.toCont = .error k := by
+/-- `add_group` reports misuse by the documented library errors only: FIXMessageError (bad tag, bad item, or
+what the item's constructor raises) or DuplicatedTagError (the tag holds a plain value) -/
+theorem add_group_errors (c : Cont) (t : PyObj) (g : DItem) (i : Int) (k : Kind) (h : addGroup c t g i = .error k) :
+    (intLike t.pyStr = false ∧ k = .fixMessageError) ∨ g.toCont = .error k ∨
+    (k = .duplicated ∧ ∃ v, lookup t.pyStr c = some v ∧ ∀ gs, v ≠ .group gs) := by
   simp only [addGroup] at h
   split at h
-  · next e he => simp only [Except.error.injEq] at h; rw [he, h]
-  · rcases hplain with hl | ⟨gs, hl⟩ <;> simp [hl] at h
+  · next hi =>
+    simp only [Except.error.injEq] at h
+    exact Or.inl ⟨by simpa using hi, h.symm⟩
+  · split at h
+    · next e he => simp only [Except.error.injEq] at h; exact Or.inr (Or.inl (by rw [he, h]))
+    · split at h
+      · simp at h
+      · next v hne hl =>
+        simp only [Except.error.injEq] at h
+        exact Or.inr (Or.inr ⟨h.symm, _, hl, fun gs e => hne gs e⟩)
+      · simp at h
+
+/-- the constructor of an item raises only library errors, so `add_group` / `set_group` / `FIXContainer(dict)`
+never let a foreign exception escape -/
+theorem add_group_never_attribute_error (c : Cont) (t : PyObj) (i : Int) (gc : Cont) :
+    addGroup c t (.cont gc) i ≠ .error .attributeError := by
+  intro h
+  rcases add_group_errors c t (.cont gc) i _ h with ⟨_, e⟩ | e | ⟨e, _⟩
+  · simp at e
+  · simp [DItem.toCont] at e
+  · simp at e
 
 /-! ## 7. pickle round trip -/
 
 theorem pickle_roundtrip (c : Cont) : pickleRoundtrip c = c ∧ eq (pickleRoundtrip c) c = true := by
-  simp [pickleRoundtrip, eq]
+  simp [pickleRoundtrip, (eq_iff c c).2 rfl]
 
 /-- a round trip anywhere in a history changes nothing that follows -/
 theorem pickle_anywhere (c : Cont) (ops₁ ops₂ : List Op) : run c (ops₁ ++ .pickle :: ops₂) = run c (ops₁ ++ ops₂) := by
@@ -360,15 +379,23 @@ theorem pickle_anywhere (c : Cont) (ops₁ ops₂ : List Op) : run c (ops₁ ++ 
 
 /-! ## 8. equality with another container -/
 
-/-- Sentence of the property that fails: container `==` holds exactly when the content is the same.
-`__eq__` compares rendered text, which is ambiguous. -/
-def eq_iff_same_content_full : Prop := ∀ a b : Cont, eq a b = true ↔ a = b
+/-- container `==` holds exactly when the tag/value content (order, nested items included) is the same —
+for ALL containers: any strings, class-object markers, any nesting -/
+theorem eq_iff_same_content (a b : Cont) : eq a b = true ↔ a = b :=
+  eq_iff a b
 
-/-- proved part: containers (nested to any depth) without class-object values whose string values contain
-none of `|` `,` `[` `]` and whose tags contain none of `=` `|` `,` `[` `]` `>` (`Cont.safe`, decidable) -/
-theorem eq_iff_same_content_partial (a b : Cont) (ha : Cont.safe a = true) (hb : Cont.safe b = true) :
-    eq a b = true ↔ a = b :=
-  eq_iff_of_safe a b ha hb
+theorem eq_refl (a : Cont) : eq a a = true := (eq_iff a a).2 rfl
+
+example : eq [([49], .str [97, 124, 50, 61, 98])] [([49], .str [97]), ([50], .str [98])] = false := by
+  cases h : eq [([49], .str [97, 124, 50, 61, 98])] [([49], .str [97]), ([50], .str [98])] with
+  | false => rfl
+  | true => exact absurd ((eq_iff _ _).1 h) (by simp)
+
+/-- `__str__` (no longer used by `==`) is still unambiguous on the safe fragment: no class-object values,
+string values without `|` `,` `[` `]`, tags as `set()` accepts them -/
+theorem str_injective_on_safe (a b : Cont) (ha : Cont.safe a = true) (hb : Cont.safe b = true)
+    (h : render a = render b) : a = b :=
+  render_injective_on_safe a b ha hb h
 
 /-- every tag `set()` accepts satisfies the tag half of `safe` -/
 theorem intLike_tag_safe (t : Str) (h : intLike t = true) : tagOk t = true := by
@@ -379,52 +406,32 @@ theorem intLike_tag_safe (t : Str) (h : intLike t = true) : tagOk t = true := by
 example : Cont.safe [([49], .str [97, 61, 98]), ([53], .group [[([50], .str [120])], []])] = true := by
   simp [Cont.safe, safeFields, Val.safe, safeItems, tagOk, strOk, isSpecial]
 
-/-- equal content is always equal (reflexivity needs no hypothesis) -/
-theorem eq_refl (a : Cont) : eq a a = true := by simp [eq]
-
 /-! ## 9. equality with a dict -/
 
-/-- `container == dict` is True exactly when the tag sets agree up to the four framing tags and every
-item of the dict – framing tags included – is stored as exactly that string. -/
+/-- `container == dict` is True exactly when the content is the same ignoring the four framing tags on both
+sides: the other tags agree as sets and every non-framing item of the dict is stored as exactly that string -/
 theorem eqDict_iff (c : Cont) (d : List (PyObj × PyObj)) :
-    eqDict c d = .ok true ↔ SameTags c d ∧ ∀ p ∈ d, lookup p.1.pyStr c = some (.str p.2.pyStr) :=
+    eqDict c d = .ok true ↔ SameContentIgnoringFraming c d :=
   eqDict_true_iff c d
 
-/-- It raises only: FIXMessageError for a group under a tag of the dict (documented); TagNotFoundError when
-the dict carries a framing tag the container lacks, or a TagNotFoundError class marker is stored;
-RepeatingTagError for a stored RepeatingTagError marker. -/
+/-- It raises only: FIXMessageError for a group under a non-framing tag of the dict (documented); TagNotFound /
+Repeating when the decoder's error-marker class is stored under such a tag. -/
 theorem eqDict_raises_only_when (c : Cont) (d : List (PyObj × PyObj)) (k : Kind) (h : eqDict c d = .error k) :
-    SameTags c d ∧ ∃ p ∈ d,
-      (k = .fixMessageError ∧ ∃ gs, lookup p.1.pyStr c = some (.group gs)) ∨
-      (k = .tagNotFound ∧ ((lookup p.1.pyStr c = none ∧ p.1.pyStr ∈ ignoreStrs) ∨
-                            lookup p.1.pyStr c = some (.cls .tagNotFound))) ∨
-      (k = .repeating ∧ lookup p.1.pyStr c = some (.cls .repeating)) :=
+    SameTags c d ∧ ∃ p ∈ d, p.1.pyStr ∉ ignoreStrs ∧
+      ((k = .fixMessageError ∧ ∃ gs, lookup p.1.pyStr c = some (.group gs)) ∨
+      (k = .tagNotFound ∧ lookup p.1.pyStr c = some (.cls .tagNotFound)) ∨
+      (k = .repeating ∧ lookup p.1.pyStr c = some (.cls .repeating))) :=
   eqDict_error c d k h
 
-/-- what "same content, ignoring the four framing tags" means for a container of plain strings -/
-def SameContentIgnoringFraming (c : Cont) (d : List (PyObj × PyObj)) : Prop :=
-  SameTags c d ∧ ∀ p ∈ d, p.1.pyStr ∉ ignoreStrs → lookup p.1.pyStr c = some (.str p.2.pyStr)
-
-/-- Sentence of the property that fails: for plain containers dict equality is total and holds exactly when
-the content is the same ignoring the framing tags.  A framing tag in the dict is compared (and raises
-TagNotFoundError when the container lacks it). -/
-def eqDict_full : Prop :=
-  ∀ (c : Cont) (d : List (PyObj × PyObj)), Plain c →
-    ∃ b, eqDict c d = .ok b ∧ (b = true ↔ SameContentIgnoringFraming c d)
-
-/-- proved part: dicts that carry none of the framing tags 8, 9, 10, 35 -/
-theorem eqDict_partial (c : Cont) (d : List (PyObj × PyObj)) (hp : Plain c)
-    (hd : ∀ p ∈ d, p.1.pyStr ∉ ignoreStrs) :
+/-- for containers of plain strings dict equality is total and decides "same content ignoring framing tags" -/
+theorem eqDict_total (c : Cont) (d : List (PyObj × PyObj)) (hp : Plain c) :
     ∃ b, eqDict c d = .ok b ∧ (b = true ↔ SameContentIgnoringFraming c d) := by
-  obtain ⟨b, hb⟩ := eqDict_total_of_plain c d hp hd
+  obtain ⟨b, hb⟩ := eqDict_total_of_plain c d hp
   refine ⟨b, hb, ?_⟩
   constructor
-  · intro e
-    subst e
-    obtain ⟨h1, h2⟩ := (eqDict_true_iff c d).1 hb
-    exact ⟨h1, fun p hp _ => h2 p hp⟩
-  · rintro ⟨h1, h2⟩
-    have := (eqDict_true_iff c d).2 ⟨h1, fun p hp => h2 p hp (hd p hp)⟩
+  · intro e; subst e; exact (eqDict_true_iff c d).1 hb
+  · intro h
+    have := (eqDict_true_iff c d).2 h
     rw [hb] at this
     simpa using this
 
